@@ -138,6 +138,8 @@ def run(ctx):
                 strings = G.strings_for(rng, gr, 5, maxlen=8)
                 # sources sharing offsets/suffixes
                 strings += [s[1:] for s in strings[:2] if len(s) > 1] + [s + s[:2] for s in strings[:2]]
+                # the same texts in another letter case: an entry keyed on a case-folded text would be shared
+                strings += [s.swapcase() for s in strings[:3] if s.swapcase() != s] + [s.upper() for s in strings[3:5] if s.upper() != s]
                 reqs = []
                 for _ in range(rng.randint(8, 30)):
                     s = rng.choice(strings)
